@@ -9,7 +9,8 @@ import subprocess
 import threading
 import time
 
-LS = os.path.join(os.path.dirname(os.path.dirname(os.path.abspath(__file__))), "target", "ls", "release", "harper-ls")
+# VERIF_LS_BIN: another server binary, for probing a monitor against a scratch build (never set by the checks)
+LS = os.environ.get("VERIF_LS_BIN") or os.path.join(os.path.dirname(os.path.dirname(os.path.abspath(__file__))), "target", "ls", "release", "harper-ls")
 
 
 class Timeout(Exception):
